@@ -159,10 +159,12 @@ pub fn produced(rng: &mut Rng, ty: &Ty, maxlen: usize, emit: Emit) -> String {
             }
             8 => {
                 let lim = ty.cap().unwrap_or(maxlen + 70);
-                line("resize", &[&cur, &s(rng.below(lim + 1)), b(rng.chance(1, 2))])
+                let n = rng.below(lim + 1);
+                let n = if rng.chance(1, 4) { n / 64 * 64 } else { n };
+                line("resize", &[&cur, &s(n), b(rng.chance(1, 2))])
             }
             9 => line("truncate", &[&cur, &s(rng.below(len + 1))]),
-            10 if len > 0 => line("rotl", &[&cur, &s(rng.below(len + 1))]),
+            10 if len > 0 => line(if rng.chance(1, 2) { "rotl" } else { "rotr" }, &[&cur, &s(if rng.chance(1, 3) { 64 * rng.below(len / 64 + 1) } else { rng.below(len + 1) })]),
             11 if rng.chance(1, 2) => line("split_off", &[&cur, &s(rng.below(len + 1))]),
             11 => {
                 // grow bit by bit: only the pushed bits are written, so anything stale above the length becomes visible
@@ -195,6 +197,8 @@ fn edit_step(rng: &mut Rng, ty: &Ty, cur: &str, over_ok: bool) -> String {
         2 if len > 0 => line("set", &[cur, &s(rng.below(len)), b(rng.chance(1, 2))]),
         3 => {
             let n = if rng.chance(1, 2) { rng.below(len + 1) } else { len + arg_len(rng, ty, len, over_ok) };
+            // one time in four a whole number of words (word-granular fast paths need word-multiple lengths)
+            let n = if rng.chance(1, 4) { (n / 64 * 64).min(ty.cap().unwrap_or(usize::MAX)) } else { n };
             line("resize", &[cur, &s(n), b(rng.chance(1, 2))])
         }
         4 => line("truncate", &[cur, &s(rng.below(len + 10))]),
@@ -224,8 +228,8 @@ fn edit_step(rng: &mut Rng, ty: &Ty, cur: &str, over_ok: bool) -> String {
             let bits = gen_bits(rng, k);
             line("extend", &[cur, &bits_token(&bits), ["x", "n", "l", "f"][rng.below(4)]])
         }
-        10 if len > 0 => line("rotl", &[cur, &s(rng.below(len + 1))]),
-        11 if len > 0 => line("rotr", &[cur, &s(rng.below(len + 1))]),
+        10 if len > 0 => line("rotl", &[cur, &s(if rng.chance(1, 3) { 64 * rng.below(len / 64 + 1) } else { rng.below(len + 1) })]),
+        11 if len > 0 => line("rotr", &[cur, &s(if rng.chance(1, 3) { 64 * rng.below(len / 64 + 1) } else { rng.below(len + 1) })]),
         _ => line(if rng.chance(1, 2) { "shl_in" } else { "shr_in" }, &[cur, b(rng.chance(1, 2))]),
     }
 }
@@ -550,14 +554,15 @@ fn gen_c17(rng: &mut Rng, tier: &str, emit: Emit) {
     let max = usize::MAX;
     for _ in 0..scale(tier, 12000) {
         let ty = *rng.pick(TYPES);
-        let len = if rng.chance(1, 2) { rng.below(12).min(ty.cap().unwrap_or(12)) } else { gen_len(rng, &ty, 150) };
+        let len = match rng.below(4) { 0 | 1 => rng.below(12).min(ty.cap().unwrap_or(12)), 2 => gen_len(rng, &ty, 150), _ => gen_len(rng, &ty, 700) };
         let v = gen_vec_len(rng, &ty, len);
         let mut rem = len;
+        let (mut front, mut back) = (0usize, 0usize);      // bits consumed at either end: positions for the boundary-aimed arguments
         let mut calls: Vec<String> = vec![];
         let n = rng.below(9);
         for i in 0..n {
-            let arg = |rng: &mut Rng, rem: usize| -> usize {
-                match rng.below(8) {
+            let arg = |rng: &mut Rng, rem: usize, pos: usize| -> usize {
+                match rng.below(11) {
                     0 => 0,
                     1 => 1,
                     2 => rem.saturating_sub(1),
@@ -565,27 +570,35 @@ fn gen_c17(rng: &mut Rng, tier: &str, emit: Emit) {
                     4 => rem + 1,
                     5 => max,
                     6 => max - rng.below(3),
+                    7 | 8 | 9 => {
+                        // land on (or right next to) the next multiple of 8 / 64 / 128 / 256 counted from this end
+                        let unit = [8usize, 64, 64, 128, 128, 256][rng.below(6)];
+                        let target = (pos / unit + 1 + rng.below(2)) * unit;
+                        (target + rng.below(3)).saturating_sub(pos + 2)
+                    }
                     _ => rng.below(rem + 2),
                 }
             };
             match rng.below(if i == n - 1 { 8 } else { 6 }) {
                 0 => {
                     calls.push("next".into());
+                    if rem > 0 { front += 1; }
                     rem = rem.saturating_sub(1);
                 }
                 1 => {
                     calls.push("back".into());
+                    if rem > 0 { back += 1; }
                     rem = rem.saturating_sub(1);
                 }
                 2 => {
-                    let a = arg(rng, rem);
+                    let a = arg(rng, rem, front);
                     calls.push(format!("nth:{}", a));
-                    rem = if a < rem { rem - a - 1 } else { 0 };
+                    if a < rem { front += a + 1; rem -= a + 1; } else { front += rem; rem = 0; }
                 }
                 3 => {
-                    let a = arg(rng, rem);
+                    let a = arg(rng, rem, back);
                     calls.push(format!("nthb:{}", a));
-                    rem = if a < rem { rem - a - 1 } else { 0 };
+                    if a < rem { back += a + 1; rem -= a + 1; } else { back += rem; rem = 0; }
                 }
                 4 | 5 => calls.push("hint".into()),
                 6 => calls.push("count".into()),
